@@ -21,6 +21,12 @@ def translated(ctx, sc, vec, as_three=False):
     return s.translated(np.array(vec))
 
 
+@op('rotated')
+def rotated(ctx, sc, angles):
+    s = _inline_scatterer(ctx, sc)
+    return s.rotated(angles[0], angles[1], angles[2])
+
+
 @op('geom_query')
 def geom_query(ctx, sc, points, background=1.0):
     s = _inline_scatterer(ctx, sc)
